@@ -9,9 +9,9 @@ CHECKS = {
         "engine": "pmc-os",
         "technique": "stateless preemption-bounded exhaustive schedule enumeration of the real containers (controlled scheduler over hooked atomics) + exhaustive sequential op histories vs reference model",
         "level_text": "Every interleaving of the containers' atomic steps within the stated deviation bound (all interleavings for the 2x2 index-queue programs), for every initial content and every op word of the small alphabet, is executed on the real code and checked for exactly-once delivery, no invention, successful quiescent pops and per-end order. Bounded-exhaustive, not sampled. Also: single-threaded phase histories with sizes across the block (32) and block-index (1024) boundaries of the FIFO back-end for all four back-ends; three consumers racing for fewer elements (3 deviations, focus on the dequeue path); producer threads that come and go (20 OS threads: growth of the producer hash, thread exit, sub-queue recycling, thread-id re-use) with two overlapping pushes at the end.",
-        "level_note": "Sequentially consistent interleavings only (weak-memory reorderings are not modelled); compare_exchange_weak never fails spuriously; choice points at the atomics of the container sources (F-site) and the watched queue object; bounds per spec are in the evidence. ConcurrentQueue's thread-exit recycling (MOODYCAMEL_CPP11_THREAD_LOCAL_SUPPORTED) is switched on explicitly for the FIFO back-end harness: the header enables it for g++ (the compiler of /repo's build) but not for the clang that compiles the instrumented harness (clang reports __GNUC__ 4.2).",
+        "level_note": "Sequentially consistent interleavings only (weak-memory reorderings are not modelled); compare_exchange_weak never fails spuriously; choice points at the atomics of the container sources (F-site) and the watched queue object; bounds per spec are in the evidence. ConcurrentQueue's thread-exit recycling (MOODYCAMEL_CPP11_THREAD_LOCAL_SUPPORTED) is switched on explicitly in the instrumented library and all harnesses: the header enables it for g++ (the compiler of /repo's build) but not for the clang that compiles the instrumented code (clang reports __GNUC__ 4.2).",
         "rule": "pmc-os: initial contents x op words (data choices) x all schedules of the container's atomic steps within the deviation bound; sequential histories against a reference container",
-        "parts": [{"bin": "C17_index_queue"}, {"bin": "C17_deque", "extra": "-DMOODYCAMEL_CPP11_THREAD_LOCAL_SUPPORTED"}],
+        "parts": [{"bin": "C17_index_queue"}, {"bin": "C17_deque"}],
     },
 }
 
